@@ -86,21 +86,7 @@ def first_too_deep(t, D):
 
 def huge_ok():
     """can this machine reserve the address space of a 93-million-level stack (3 GiB + ASan shadow)?"""
-    try:
-        import resource, mmap
-        if resource.getrlimit(resource.RLIMIT_AS)[0] != resource.RLIM_INFINITY:
-            return False
-        avail = 0
-        for l in open("/proc/meminfo"):
-            if l.startswith("MemAvailable:"):
-                avail = int(l.split()[1]) * 1024
-        if avail < (6 << 30):
-            return False
-        m = mmap.mmap(-1, 3 << 30, flags=mmap.MAP_PRIVATE | mmap.MAP_ANONYMOUS | getattr(mmap, "MAP_NORESERVE", 0))
-        m.close()
-        return True
-    except Exception:
-        return False
+    return mem_ok(3 << 30)
 
 
 def gen(rng, tier):
